@@ -2,7 +2,7 @@
    matrices are REGENERATED from /repo on every run (gen/Scorers.v, harness/translate/scorers.py)
    together with their finite obligation. *)
 From Coq Require Import QArith ZArith List Bool Arith.
-From LV Require Import Align.DP Align.Calign Align.SelfDist.
+From LV Require Import Align.DP Align.Calign Align.SelfDist Align.DialignSelf.
 From LVGen Require Import Scorers.
 Import ListNotations.
 Local Open Scope Q_scope.
@@ -32,4 +32,29 @@ Proof.
   pose proof (self_similarity p md sec ND SS SP GA GB S0 F0 D1 D2 NE) as SIM.
   destruct (align p md sec) as [a b sim|pa a sa pb b sb sim|]; [| |exact SIM];
     (split; [exact SIM|intros NZ; exact (self_distance_zero p SS sim SIM NZ)]).
+Qed.
+
+(* dialign mode (no gap costs: no condition on weights, gop or scale) *)
+Theorem shipped_self_similarity_dialign :
+  forall cs sc, In (cs, sc) shipped_scorers ->
+  forall (p : cin) (sec : bool),
+    scorer p = sc -> seqB p = seqA p -> proB p = proA p ->
+    (forall a, In a (seqA p) -> In a cs) ->
+    0 <= factor p -> seqA p <> [] ->
+    match align p Dialign sec with
+    | RGlobal _ _ sim => sim == self2 p /\ (~ self2 p == 0 -> distance p sim == 0)
+    | _ => False
+    end.
+Proof.
+  intros cs sc Hin p sec Hsc SS SP Hcs F0 NE.
+  pose proof shipped_scorers_ok as OK. rewrite forallb_forall in OK. specialize (OK _ Hin). cbn [fst snd] in OK.
+  pose proof (scorer_ok_dominant cs sc OK) as DOM.
+  assert (D1 : forall a, In a (seqA p) -> 0 <= score_lookup (scorer p) a a).
+  { intros a Ha. rewrite Hsc. exact (proj1 (DOM a a (Hcs a Ha) (Hcs a Ha))). }
+  assert (D2 : forall a b, In a (seqA p) -> In b (seqA p) ->
+                 (2 # 1) * score_lookup (scorer p) a b <= score_lookup (scorer p) a a + score_lookup (scorer p) b b).
+  { intros a b Ha Hb. rewrite Hsc. exact (proj2 (DOM a b (Hcs a Ha) (Hcs b Hb))). }
+  pose proof (dialign_self_similarity p sec SS SP F0 D1 D2 NE) as SIM.
+  destruct (align p Dialign sec) as [a b sim| |]; try exact SIM.
+  split; [exact SIM|intros NZ; exact (self_distance_zero p SS sim SIM NZ)].
 Qed.
